@@ -69,6 +69,17 @@ def sweeps(tier):
             if fc in (1, 2, 3, 4):
                 more.append({'t': 'size', 'kind': k, 'fields': f, 'built': 'reused'})
     out.append(('predictions-of-decoded-and-re-used-request-objects', more, False))
+    # whatever other request class offers a prediction (discovered at run time): judged against the server path, also with
+    # process-wide state that changes the reply size (a non-empty communication event log)
+    generic = []
+    for kind, f in (('req:7', {}), ('req:11', {}), ('req:12', {}), ('req:17', {}), ('req:22', {'address': 3, 'and_mask': 0xF2, 'or_mask': 0x25}),
+                    ('req:24', {'address': 4}), ('req:20', {'records': [{'file': 1, 'record': 1, 'length': 2}]}),
+                    ('req:43', {'read_code': 1, 'object_id': 0})):
+        for events in (0, 1, 3, 64):
+            if events and kind != 'req:12':
+                continue
+            generic.append({'t': 'size', 'kind': kind, 'fields': f, 'generic': True, 'events': events})
+    out.append(('other-request-classes-that-offer-a-prediction', generic, False))
     cases = []
     for framing in ('rtu', 'ascii', 'binary'):
         for fc, qs in ((1, [1, 7, 8, 9, 16, 17, 2000]), (3, [1, 2, 125]), (5, [1]), (6, [1]), (15, [1, 9, 1968]), (16, [1, 123]), (23, [1, 125])):
@@ -121,6 +132,34 @@ def _run_size(case):
     kind, f = case['kind'], case['fields']
     labels = ['size', 'kind:' + kind]
     creq = kinds.build(kind, f)
+    if case.get('generic'):
+        if not hasattr(creq, 'get_response_pdu_size'):
+            return Outcome([], labels + ['no-prediction-offered'], False)
+        labels.append('discovered-predictor')
+        try:
+            pred = creq.get_response_pdu_size()
+            from pymodbus.factory import ServerDecoder
+            from pymodbus.device import ModbusControlBlock
+            from pymodbus.events import RemoteReceiveEvent
+            pm.reset_globals()
+            for _ in range(case.get('events') or 0):
+                ModbusControlBlock().addEvent(RemoteReceiveEvent())
+            try:
+                rsp = ServerDecoder().decode(specpdu.encode(kind, f)).execute(slave())
+                real = 1 + len(rsp.encode())
+            except Exception:
+                pm.reset_globals()
+                return Outcome([], labels + ['excluded-server-path-raised'], False)      # not a matter of the prediction
+            pm.reset_globals()
+            if rsp.function_code >= 0x80 or not pred:
+                return Outcome([], labels + ['excluded-exception-or-no-size'], False)
+            if pred != real:
+                return Outcome([Disc('prediction', '%s (event log holds %d events): get_response_pdu_size() = %d, the server\'s normal response PDU has %d bytes' % (
+                    kind, case.get('events') or 0, pred, real))], labels, True)
+        except Exception as e:
+            pm.reset_globals()
+            return Outcome([Disc('raises', '%s: %s: %s' % (kind, type(e).__name__, e))], labels, True)
+        return Outcome([], labels, True)
     how = case.get('built')
     if how == 'decoded':
         # the same request as the decoder builds it from the wire
